@@ -289,6 +289,9 @@ type matchCase struct {
 	Pats  []patSpec `json:"patterns"`
 	Probe int       `json:"probe"` // index into probes()
 	API   int       `json:"api"`   // 0 Either, 1 DefPattern(...).MatchFor
+	// NilEffect: the effects return nil (an effect used for its side effect, or identity on a nil
+	// probe): a nil result is still the result of the accepting pattern, not "no match"
+	NilEffect bool `json:"nilEffect,omitempty"`
 	// readable rendering, ignored on replay
 	Readable string `json:"readable,omitempty"`
 }
@@ -298,6 +301,9 @@ func (c matchCase) compact() string {
 	b := make([]byte, 0, 48)
 	b = append(b, "match|api"...)
 	b = strconv.AppendInt(b, int64(c.API), 10)
+	if c.NilEffect {
+		b = append(b, "|nilEffect"...)
+	}
 	b = append(b, '|')
 	if c.Probe >= 0 && c.Probe < len(probes()) {
 		b = append(b, probes()[c.Probe].name...)
@@ -460,6 +466,9 @@ func runMatch(c matchCase) (o outcome) {
 		i := i
 		eff := func(x interface{}) interface{} {
 			calls = append(calls, call{i, x})
+			if c.NilEffect {
+				return nil
+			}
 			return fmt.Sprintf("effect-%d", i)
 		}
 		switch p.Kind {
@@ -518,7 +527,12 @@ func runMatch(c matchCase) (o outcome) {
 		}
 		return
 	}
-	if res != fmt.Sprintf("effect-%d", got) {
+	if c.NilEffect {
+		if res != nil {
+			fail("result", "%s returned %v, the effect of %s returned nil", c, res, outcomeName(c, got))
+			return
+		}
+	} else if res != fmt.Sprintf("effect-%d", got) {
 		fail("result", "%s returned %v, want the result of %s", c, res, outcomeName(c, got))
 		return
 	}
@@ -652,7 +666,7 @@ func TestMatchExhaustive(t *testing.T) {
 				}
 			}
 			for pi := range ps {
-				c := matchCase{Pats: pats, Probe: pi, API: int(idx+int64(pi)) % 2}
+				c := matchCase{Pats: pats, Probe: pi, API: int(idx+int64(pi)) % 2, NilEffect: (idx+int64(pi))%5 == 3}
 				s.Eval("match-exhaustive")
 				o := runMatch(c)
 				if o.nontrivial {
@@ -697,7 +711,7 @@ func usesParams(list []string) bool {
 
 func propMatch(t *rapid.T) {
 	n := rapid.IntRange(0, 7).Draw(t, "npatterns")
-	c := matchCase{API: rapid.IntRange(0, 1).Draw(t, "api")}
+	c := matchCase{API: rapid.IntRange(0, 1).Draw(t, "api"), NilEffect: rapid.IntRange(0, 3).Draw(t, "nilEffect") == 0}
 	for i := 0; i < n; i++ {
 		k := rapid.SampledFrom(patternKinds).Draw(t, "kind")
 		c.Pats = append(c.Pats, patSpec{Kind: k, Param: rapid.IntRange(0, paramCount(k)-1).Draw(t, "param")})
